@@ -1,7 +1,7 @@
 //verif:pkg .
 //verif:use fakes_client
 //verif:use fakes_mcp
-//verif:bound one adversarial frame (an arbitrary JSON document of depth <= 2 that is not the pending call's own answer, truncated JSON, a line of 3 printable ASCII bytes starting with an upper-case letter, comments and blank lines, an event without data, empty data, an unexpected endpoint event, id/retry fields only; on the GET stream also a 70000-byte frame) placed before, inside or after the valid answer of call 1, followed by a well-formed call 2 and Close; plus the call's own id with an arbitrary result document (depth <= 3) for each of tools/call, tools/list, prompts/list, prompts/get, resources/list, resources/read; Streamable client with JSON answers, with SSE answers (with and without a registered notification handler) and on its GET stream, legacy SSE client, stdio client transport
+//verif:bound one adversarial frame - thorough: two consecutive ones of independently chosen kinds on the legacy stream - (an arbitrary JSON document of depth <= 2 that is not the pending call's own answer, truncated JSON, a line of 3 printable ASCII bytes starting with an upper-case letter, comments and blank lines, an event without data, empty data, an unexpected endpoint event, id/retry fields only; on the GET stream also a 70000-byte frame) placed before, inside or after the valid answer of call 1, followed by a well-formed call 2 and Close; plus the call's own id with an arbitrary result document (depth <= 3) for each of tools/call, tools/list, prompts/list, prompts/get, resources/list, resources/read; Streamable client with JSON answers, with SSE answers (with and without a registered notification handler) and on its GET stream, legacy SSE client, stdio client transport
 //verif:assume several adversarial frames in one exchange, frames split across reads at arbitrary byte offsets and CPU-time measurement are outside the bound; a goroutine that re-reads a sticky decoder error three times is taken to spin forever
 package mcp
 
@@ -81,6 +81,15 @@ func c07BadSSE(kind int, callID int64) string {
 		return "event: endpoint\ndata: /message?sessionId=zzz\n\n"
 	}
 	return "id: 99\nretry: 5\n\n"
+}
+
+// c07Bads: one adversarial frame (quick) or two consecutive ones of independently chosen kinds (thorough).
+func c07Bads(kind int, callID int64) string {
+	out := c07BadSSE(kind, callID)
+	if vTier() == 1 {
+		out += c07BadSSE(vChoice("bad2", c07Kinds), callID)
+	}
+	return out
 }
 
 // c07Place puts bad before (0), inside (1) or after (2) the answer event.
@@ -316,7 +325,7 @@ func H_C07_legacy_client() {
 		}
 		posts++
 		if posts == 1 {
-			stream.push([]byte(c07Place(pos, c07BadSSE(kind, 1), c07Answer(id, "yours"), "event: message\n")))
+			stream.push([]byte(c07Place(pos, c07Bads(kind, 1), c07Answer(id, "yours"), "event: message\n")))
 		} else {
 			stream.push([]byte("event: message\ndata: " + string(c07Answer(id, "yours2")) + "\n\n"))
 		}
